@@ -24,7 +24,9 @@ import contextlib
 import importlib.util
 import io
 import itertools
+import logging
 import os
+import shutil
 import subprocess
 import tempfile
 
@@ -333,6 +335,19 @@ class _FakeProc:
         pass
 
 
+def effective_home(argv, env):
+    """The GnuPG home directory a backend process started with (argv, env) works on: an explicit --homedir
+    option wins (gpg's own precedence), otherwise GNUPGHOME of the environment the process gets (env=None:
+    the inherited process environment)."""
+    argv = [a if isinstance(a, str) else os.fsdecode(a) for a in argv]
+    for i, a in enumerate(argv[1:], 1):
+        if a == '--homedir' and i + 1 < len(argv):
+            return argv[i + 1]
+        if a.startswith('--homedir='):
+            return a[len('--homedir='):]
+    return (os.environ if env is None else env).get('GNUPGHOME')
+
+
 class Recorder:
     """Part B: the real Popen, with argv / GNUPGHOME / output / exit of every process recorded."""
 
@@ -343,7 +358,7 @@ class Recorder:
         class RecPopen(subprocess.Popen):
             def __init__(self, argv, **kw):
                 env = kw.get('env')
-                self._rec = {'argv': list(argv), 'home': (env or os.environ).get('GNUPGHOME'),
+                self._rec = {'argv': list(argv), 'home': effective_home(argv, env),
                              'out': b'', 'err': b'', 'exit': None}
                 rec.log.append(self._rec)
                 super().__init__(argv, **kw)
@@ -985,12 +1000,14 @@ def note_calls(stats, calls):
             stats.counters['B_kw:' + k] += 1
 
 
+_NOT_AN_OP = ('--batch', '--status-fd', '--no-tty', '--with-colons', '--homedir')
+
+
 def check_homes(calls, want_home, forbidden):
     """Every backend process gemato starts for an isolated environment must get that environment's GNUPGHOME."""
     out = []
     for r in calls:
-        op = next((a for a in r['argv'][1:] if a.startswith('--') and a not in ('--batch', '--status-fd', '--no-tty')),
-                  os.path.basename(r['argv'][0]))
+        op = next((a for a in r['argv'][1:] if a.startswith('--') and a not in _NOT_AN_OP), os.path.basename(r['argv'][0]))
         if r['home'] is None or r['home'] == forbidden or (want_home is not None and r['home'] != want_home):
             out.append(({'check': 'gnupghome_not_forced', 'op': op},
                         f'backend process {op} ran with GNUPGHOME={r["home"]!r} instead of the isolated home'))
@@ -1096,21 +1113,24 @@ def b1_run(spec, tier, seed, scratch, stats):
 
 # ---------------------------------------------------------------- B1cli: key state x gemato verify -K -R [-s] [-P]
 
-def b_cli_run(keyblob, text, flags, scratch, user_home=None):
-    """Run `gemato verify -K key -R flags tree` with real gpg.  -> (Obs, recorded calls)"""
+def b_cli_run(keyblob, text, flags, scratch, user_home=None, env_flags=()):
+    """Run `gemato verify -K key -R env_flags flags tree` with real gpg.  -> (Obs, recorded calls, tmp, leftovers)"""
     root = fresh_root(scratch, 'b')
     write_fixture_tree(root, text)
     kf = os.path.join(scratch, 'key.bin')
     with open(kf, 'wb') as fh:
         fh.write(keyblob)
-    tmp = os.path.join(scratch, 'tmp')
-    os.makedirs(tmp, exist_ok=True)
+    tmp = fresh_root(scratch, 'tmp')
     rec = Recorder()
-    with _patched(rec.popen), _tmp_under(tmp):
-        o = obs_cli(flags, ('-K', kf, '-R'), root)
-    leftovers = [d for d in os.listdir(tmp) if d.startswith('gemato.')]
-    for d in leftovers:                      # never expected: cleanup() closes the environment
+    try:
+        with _patched(rec.popen), _tmp_under(tmp):
+            o = obs_cli(flags, ('-K', kf, '-R') + tuple(env_flags), root)
+    finally:
+        logging.getLogger().setLevel(logging.INFO)      # --debug raises the process-wide log level
+    leftovers = sorted(d for d in os.listdir(tmp) if d.startswith('gemato.'))
+    for d in leftovers:                      # only expected with --debug: cleanup() closes the environment
         _kill_agents(os.path.join(tmp, d))
+        shutil.rmtree(os.path.join(tmp, d), ignore_errors=True)
     return o, rec.log, tmp, leftovers
 
 
